@@ -188,13 +188,48 @@ func fieldNameExported(c *Ctx, acc *ssa.Call) (bool, string) {
 		return false, "the field is chosen by " + f.Name() + " and Interface() is not under CanInterface(): an unexported field that is selected here makes Interface panic"
 	}
 	name := acc.Call.Args[1]
-	if _, isC := name.(*ssa.Const); isC {
-		return true, ""
+	// a name handed in as a parameter ("extract method" around the field read) is what the callers hand in
+	names := []ssa.Value{name}
+	if p, isP := name.(*ssa.Parameter); isP && p.Parent() != nil {
+		names = nil
+		host := p.Parent()
+		idx := -1
+		for i, q := range host.Params {
+			if q == p {
+				idx = i
+			}
+		}
+		for _, fn := range c.allFns {
+			for _, ci := range callsIn(fn) {
+				if ci.Common().StaticCallee() == host && idx >= 0 && idx < len(ci.Common().Args) {
+					names = append(names, ci.Common().Args[idx])
+				}
+			}
+		}
+		if len(names) == 0 {
+			return false, "the field name is a parameter of " + fnName(host) + " and no call of it was found"
+		}
 	}
-	_, owner, field, ok := loadOfField(name)
-	if !ok {
-		return false, "the field name (" + shortPath(vpath(name)) + ") is not a constant and not a cached binding the rule can follow"
+	for _, nm := range names {
+		if _, isC := nm.(*ssa.Const); isC {
+			continue
+		}
+		_, owner, field, ok := loadOfField(nm)
+		if !ok {
+			_, owner, field, ok = getterLoad(nm)
+		}
+		if !ok {
+			return false, "the field name (" + shortPath(vpath(nm)) + ") is not a constant and not a cached binding the rule can follow"
+		}
+		if ok2, why := bindingStoresExported(c, owner, field); !ok2 {
+			return false, why
+		}
 	}
+	return true, ""
+}
+
+// bindingStoresExported: every store into owner.field is the name of an exported struct field.
+func bindingStoresExported(c *Ctx, owner, field string) (bool, string) {
 	nst := 0
 	for _, fn := range c.allFns {
 		for _, b := range fn.Blocks {
